@@ -2,7 +2,7 @@
 archive.rs; private functions reached through a child module appended to a check-time copy), runs request scenarios
 in a temporary directory, compares with the sequential reference semantics written from the property texts, and — for
 ORDER obligations — observes the real system-call order with strace."""
-import json
+import json, posixpath
 import os
 import re
 import shutil
@@ -216,7 +216,8 @@ def scenarios():
     for e in (None, "STALE"):
         out.append({"fn": "hub_step", "tree": tree, "op": "put", "path": "d", "expected": e, "content": hx(b"abc"), "hash": "CONTENT", "truthful": True})
     out.append({"fn": "hub_step", "tree": tree, "op": "delete", "path": "d", "expected": None, "truthful": True})
-    for path in ("a.txt", "d/b.bin", "new.txt", "d/e/new.txt", "../x", "/abs", "d/../../y", "d/..", "..", "a..b", "d/./b.bin"):
+    for path in ("a.txt", "d/b.bin", "new.txt", "d/e/new.txt", "../x", "/abs", "d/../../y", "d/..", "..", "a..b", "d/./b.bin",
+                 "../newdir/sub/x", "../outside/sentinel", "d/../../outside/deep/er/z"):
         for e in (None, "CURRENT", "STALE"):
             for content in (b"", b"abc"):
                 for hsh in ("CONTENT", "WRONG"):
@@ -377,7 +378,7 @@ def outside_check(R, oid, key, only=None):
     the oracle's world directory that is not the served root or below it - also not transiently (a staging file that is created
     next to the root and removed again leaves no trace in the tree afterwards)"""
     own = ("/world", "/world/outside", "/world/outside/sentinel")
-    cases = [c for c in scenarios() if (c.get("degenerate") or c.get("abs_under_root") or c.get("path", "").startswith(("..", "/")) or c.get("path") in ("d/..", "d/../../y"))
+    cases = [c for c in scenarios() if (c.get("degenerate") or c.get("abs_under_root") or c.get("path", "").startswith(("..", "/")) or c.get("path") in ("d/..", "d/../../y", "d/../../outside/deep/er/z"))
              and (only is None or only(c)) and not c.get("trailing")]
     cases.sort(key=lambda c: 0 if c.get("degenerate") else 1)
     cases = cases[:160]
@@ -397,7 +398,8 @@ def outside_check(R, oid, key, only=None):
             if nm in ("openat", "open") and not re.search(r"O_CREAT|O_TRUNC|O_WRONLY|O_RDWR", args):
                 continue
             for pth in re.findall(r'"(%s[^"]*)"' % re.escape(base), args):
-                rel = pth[len(base):]
+                # lexical normalisation: <root>/../x names <world>/x although it is spelt with the root as a prefix (seeded change c11-5)
+                rel = posixpath.normpath(pth[len(base):]) if pth[len(base):] else ""
                 if rel in own or rel == "" or rel == "/world/root" or rel.startswith("/world/root/"):
                     continue
                 cc = dict(c)
